@@ -121,6 +121,12 @@ func checkC17(c *Ctx) {
 	c.Rule("C17.R3", "window end types (sibling predicates): both validity predicates accept exactly at >= valid_from and (no end or at < valid_until)")
 	c.Rule("C17.R4", "selection: newest_valid replaces on After, oldest_valid on Before, ties on the smaller id; every returned reference comes from a scan of all versions at the signing instant (no shortcut around the scan)")
 
+	c.Rule("C17.R5", "inbound rotation: the ingress verifier chooses the rotating secret set at the signed timestamp of the request (not at its own clock), so a request signed with a version valid when it was signed verifies, and one signed with a version not valid at that instant does not")
+	if vfn := p.Func("ingress", "(*HMACAuth).Verify"); vfn != nil {
+		checkInboundSecretSelection(c, "C17.R5", vfn, "ingress.HMACAuth.Verify")
+	} else {
+		c.Fail("C17.R5", "anchor:HMACAuth.Verify", "", "anchor not found")
+	}
 	// the signing step: function in dispatcher that calls hmac.New and sets request headers
 	var sign *ssa.Function
 	for _, fn := range p.FuncsInPkg("dispatcher") {
